@@ -238,6 +238,21 @@ func (s *State) Clone() *State {
 	return n
 }
 
+// EachMem visits every known memory cell (address term, content term).
+func (s *State) EachMem(f func(addr, val *Term)) {
+	if s == nil {
+		return
+	}
+	keys := make([]string, 0, len(s.mem))
+	for k := range s.mem {
+		keys = append(keys, k)
+	}
+	sort.Strings(keys)
+	for _, k := range keys {
+		f(s.mem[k].addr, s.mem[k].val)
+	}
+}
+
 // Fact returns the recorded truth of a branch atom in this state.
 func (s *State) Fact(atom *Term) (val, known bool) {
 	if s == nil {
@@ -252,7 +267,12 @@ func (s *State) Reg(v ssa.Value) *Term {
 	if s == nil || len(s.frames) == 0 {
 		return nil
 	}
-	return s.frames[0].env[v]
+	for i := len(s.frames) - 1; i >= 0; i-- {
+		if t, ok := s.frames[i].env[v]; ok {
+			return t
+		}
+	}
+	return nil
 }
 
 func (s *State) top() *frame { return s.frames[len(s.frames)-1] }
@@ -445,6 +465,9 @@ func (p *Path) Events(kinds ...Kind) []*Step {
 
 type Options struct {
 	MaxInline int
+	// LoopInline: also inline callees that contain loops (their loop heads become cut points); off by default.
+	// Directly recursive callees are never inlined together with their loops.
+	LoopInline bool
 	// Inline decides whether a resolved callee with a body may be inlined.
 	Inline func(*ssa.Function) bool
 	// PureCall marks callee names (see calleeKey) whose results are functions of
@@ -454,12 +477,15 @@ type Options struct {
 }
 
 type Analysis struct {
-	Fn       *ssa.Function
-	Headers  []*ssa.BasicBlock
-	Segs     map[*ssa.BasicBlock][]*Path // nil key = from entry
-	Start    map[*ssa.BasicBlock]*State
-	Problems []string
-	NPaths   int
+	Fn *ssa.Function
+	// Headers: loop headers that are cut points: those of Fn first, then those of callees inlined together
+	// with their loops (a callee with loops is inlined at one call site only - the first one explored)
+	Headers   []*ssa.BasicBlock
+	loopOwner map[*ssa.Function]string
+	Segs      map[*ssa.BasicBlock][]*Path // nil key = from entry
+	Start     map[*ssa.BasicBlock]*State
+	Problems  []string
+	NPaths    int
 }
 
 // AllPaths returns every segment, entry first, then headers by block index.
@@ -523,7 +549,7 @@ type explorer struct {
 // Analyze explores fn from init (a state with one root frame prepared by
 // NewRootState) to a fixpoint over its loop headers.
 func Analyze(fn *ssa.Function, init *State, opt *Options) *Analysis {
-	an := &Analysis{Fn: fn, Segs: map[*ssa.BasicBlock][]*Path{}, Start: map[*ssa.BasicBlock]*State{}}
+	an := &Analysis{Fn: fn, Segs: map[*ssa.BasicBlock][]*Path{}, Start: map[*ssa.BasicBlock]*State{}, loopOwner: map[*ssa.Function]string{}}
 	if len(fn.Blocks) == 0 {
 		an.Problems = append(an.Problems, "function has no body: "+FuncName(fn))
 		return an
@@ -622,31 +648,45 @@ func mergeAt(h *ssa.BasicBlock, old *State, p *Path) (*State, bool) {
 		n := end.Clone()
 		n.steps = nil
 		for phi, v := range p.PhiOut {
-			n.frames[0].env[phi] = v
+			n.frames[len(n.frames)-1].env[phi] = v
 		}
 		return n, true
 	}
 	changed := false
 	n := old.Clone()
 	n.steps = nil
-	rf, ef := n.frames[0], end.frames[0]
-	// registers
-	for k, v := range rf.env {
-		if _, isPhi := k.(*ssa.Phi); isPhi && k.(*ssa.Phi).Block() == h {
-			continue
+	if len(n.frames) != len(end.frames) {
+		// different call chains reach the same loop head: keep the old start (sound: the callee is then
+		// analysed for the first chain only; the other arrival is reported by the caller as a problem)
+		return n, false
+	}
+	for fi := range n.frames {
+		rf, ef := n.frames[fi], end.frames[fi]
+		if rf.fn != ef.fn {
+			return n, false
 		}
-		ev, ok := ef.env[k]
-		if !ok {
-			continue // not (re)defined on this path: keep the dominating definition
-		}
-		if !Same(ev, v) {
-			sym := &Term{Op: "phi", Aux: k.Name() + hdrTag + ":join", Typ: k.Type(), Src: k}
-			if !Same(v, sym) {
-				rf.env[k] = sym
-				changed = true
+		// registers
+		for k, v := range rf.env {
+			if phi, isPhi := k.(*ssa.Phi); isPhi && phi.Block() == h {
+				continue
+			}
+			ev, ok := ef.env[k]
+			if !ok {
+				continue // not (re)defined on this path: keep the dominating definition
+			}
+			if !Same(ev, v) {
+				sym := &Term{Op: "phi", Aux: k.Name() + hdrTag + ":join", Typ: k.Type(), Src: k}
+				if !Same(v, sym) {
+					rf.env[k] = sym
+					changed = true
+				}
 			}
 		}
+		if len(rf.defers) != len(ef.defers) {
+			rf.defers = ef.defers
+		}
 	}
+	rf := n.frames[len(n.frames)-1]
 	for _, in := range h.Instrs {
 		phi, ok := in.(*ssa.Phi)
 		if !ok {
@@ -702,11 +742,6 @@ func mergeAt(h *ssa.BasicBlock, old *State, p *Path) (*State, bool) {
 		if !end.fresh[k] {
 			delete(n.fresh, k)
 		}
-	}
-	// defers must agree
-	if len(rf.defers) != len(ef.defers) {
-		// a defer registered inside a loop: not supported
-		rf.defers = ef.defers
 	}
 	return n, changed
 }
@@ -809,8 +844,7 @@ func (ex *explorer) run(st *State, blk *ssa.BasicBlock, idx int, prev *ssa.Basic
 		}
 		f := st.top()
 		if idx == 0 {
-			root := len(st.frames) == 1
-			if root && ex.isHdr[blk] && !first {
+			if ex.isHdr[blk] && !first {
 				// reached a cut point
 				p := &Path{To: blk, PhiOut: map[*ssa.Phi]*Term{}}
 				pi := predIndex(blk, prev)
@@ -1056,6 +1090,10 @@ func resolveBody(f *ssa.Function) *ssa.Function {
 }
 
 func (ex *explorer) canInline(st *State, fn *ssa.Function) bool {
+	return ex.canInlineAt(st, fn, "")
+}
+
+func (ex *explorer) canInlineAt(st *State, fn *ssa.Function, site string) bool {
 	if fn == nil || len(fn.Blocks) == 0 {
 		return false
 	}
@@ -1067,11 +1105,33 @@ func (ex *explorer) canInline(st *State, fn *ssa.Function) bool {
 			return false
 		}
 	}
-	if HasLoop(fn) {
-		return false
-	}
 	if ex.opt.Inline != nil && !ex.opt.Inline(fn) {
 		return false
+	}
+	if HasLoop(fn) {
+		// a callee with loops is inlined (its loop heads become cut points) at exactly one call site
+		if site == "" || !ex.opt.LoopInline || callsItself(fn) {
+			return false
+		}
+		key := site + st.top().id
+		if owner, ok := ex.an.loopOwner[fn]; ok && owner != key {
+			return false
+		}
+		// nested defers inside such a callee are not supported
+		for _, b := range fn.Blocks {
+			for _, in := range b.Instrs {
+				if _, isDefer := in.(*ssa.Defer); isDefer {
+					return false
+				}
+			}
+		}
+		ex.an.loopOwner[fn] = key
+		for _, h := range LoopHeaders(fn) {
+			if !ex.isHdr[h] {
+				ex.isHdr[h] = true
+				ex.an.Headers = append(ex.an.Headers, h)
+			}
+		}
 	}
 	return true
 }
@@ -1206,7 +1266,7 @@ func (ex *explorer) doCall(st *State, in ssa.Instruction, c *ssa.CallCommon, val
 			bindings = calleeT.Args
 		}
 	}
-	if fn != nil && ex.canInline(st, fn) {
+	if fn != nil && ex.canInlineAt(st, fn, site) {
 		ex.pushFrame(st, fn, args, bindings, site, blk, idx+1, val, false, in)
 		return true
 	}
@@ -1419,4 +1479,17 @@ func SpawnState(s *Step) (*ssa.Function, *State) {
 	}
 	st := NewRootState(fn, s.A, bindings, s.Snap)
 	return fn, st
+}
+
+func callsItself(fn *ssa.Function) bool {
+	for _, b := range fn.Blocks {
+		for _, in := range b.Instrs {
+			if c, ok := in.(ssa.CallInstruction); ok {
+				if sc := c.Common().StaticCallee(); sc != nil && resolveBody(sc) == fn {
+					return true
+				}
+			}
+		}
+	}
+	return false
 }
